@@ -28,6 +28,10 @@ CHECKS = {
   "reference-model monitor where the generator is the model: object sequence x independent spelling x independent separator, compared with the procedure the library builds; DSC list compared; serialisations read back",
   "The generator draws an object sequence, then independently a spelling for each object (number bases and exponent forms, per-byte escape choice, balanced raw parentheses, continuations, raw CR/LF/CRLF, hex and ASCII85 strings with interior white space, odd digit counts and every tail length) and a separator for each gap (every white-space character, CRLF, comments ended by LF, CR, CRLF or FF, or nothing where delimiters allow), with DSC lines and %%+ continuations at column 0. `{ tokens }` is executed and the pushed procedure is compared element by element (type and value, nested) with the drawn objects, Interpreter.DSC with the drawn (key, value) list. All 256 byte values are run through each string flavour, every near-number and radix base is enumerated, and String.PS()/Name.PS() outputs are read back.",
   "Trusted: ref.ParseNumber (PLRM 3.2.2) for classifying bare tokens; strconv.ParseFloat as correctly rounded decimal conversion. 27 control bytes that the library treats as white space (the PLRM does not) are carried as known findings keyed by the exact input and kept out of the random generator."),
+ "C05": ("exploration", "DESIGN.md 11/C05",
+  "differential monitor (library vs library) with an independent encryptor: encrypted file against the hand-fed plaintext, full state digest comparison",
+  "Plaintext programs (generated control-flow and data programs plus `n RD <n arbitrary bytes>` definitions read through the decrypting scanner, optionally leaving dictionaries open) are encrypted by the harness's own Type 1 cipher with random legal 4-byte prefixes and written as binary or as hex (lower/upper/mixed case, white space at any position after the first four digits, any line width), after any white-space run following `eexec`, with or without `currentfile closefile`, with trailers (512 zeros + cleartomark, clear tokens, a second encrypted section). One interpreter executes the file; a second one executes the clear prefix, gets systemdict pushed, executes the plaintext, gets the dictionary stack cut back and executes the trailer. Error outcome and complete state digests (stacks, all dictionaries, sharing, binary strings byte-exact) must agree.",
+  "Trusted: harness/ref/cipher.go. Equivalence of one Execute call with several consecutive calls is C12's subject and assumed here. Exactly one white-space byte after closefile belongs to the section; plaintexts containing `stop` or exhausting the budget are not compared."),
 }
 
 NOT_CLAIMED = {}
